@@ -147,20 +147,20 @@ Theorem http_classification :
   http_final (http_attempt HSilent) = FTransient /\
   http_final (http_attempt HBroken) = FTransient /\
   (forall status h, ~ (200 <= status < 300) -> http_final (http_attempt (HResp status h)) <> FDelivered) /\
-  (forall status code cmd, ~ (200 <= status < 300) -> 500 <= code <= 599 ->
-     http_final (http_attempt (HResp status (HCode code cmd))) = FPermanent) /\
-  (forall status code cmd, ~ (200 <= status < 300) -> 400 <= code <= 499 ->
-     http_final (http_attempt (HResp status (HCode code cmd))) = FTransient).
+  (forall status code cmd e, ~ (200 <= status < 300) -> 500 <= code <= 599 ->
+     http_final (http_attempt (HResp status (HCode code cmd e))) = FPermanent) /\
+  (forall status code cmd e, ~ (200 <= status < 300) -> 400 <= code <= 499 ->
+     http_final (http_attempt (HResp status (HCode code cmd e))) = FTransient).
 Proof.
   repeat split; try reflexivity.
   - intros status h Hs. cbn. destruct ((200 <=? status) && (status <? 300)) eqn:E; [lia|].
     destruct (header_class h) as [c|]; [destruct c; discriminate|].
     destruct ((400 <=? status) && (status <? 500)); discriminate.
-  - intros status code cmd Hs Hc. cbn. destruct ((200 <=? status) && (status <? 300)) eqn:E; [lia|].
+  - intros status code cmd e Hs Hc. cbn. destruct ((200 <=? status) && (status <? 300)) eqn:E; [lia|].
     destruct ((code <? 100) || (599 <? code)) eqn:E1; [lia|].
     destruct (code <? 200) eqn:E2; [lia|]. destruct (code <? 300) eqn:E3; [lia|].
     destruct (code <? 400) eqn:E4; [lia|]. destruct (code <? 500) eqn:E5; [lia|]. reflexivity.
-  - intros status code cmd Hs Hc. cbn. destruct ((200 <=? status) && (status <? 300)) eqn:E; [lia|].
+  - intros status code cmd e Hs Hc. cbn. destruct ((200 <=? status) && (status <? 300)) eqn:E; [lia|].
     destruct ((code <? 100) || (599 <? code)) eqn:E1; [lia|].
     destruct (code <? 200) eqn:E2; [lia|]. destruct (code <? 300) eqn:E3; [lia|].
     destruct (code <? 400) eqn:E4; [lia|]. destruct (code <? 500) eqn:E5; [|lia]. reflexivity.
@@ -172,10 +172,10 @@ Proof.
 Qed.
 
 Example http_example :
-  http_attempt (HResp 503 (HCode 450 true)) = HExc Trans /\
-  http_attempt (HResp 500 (HCode 550 true)) = HExc Perm /\
-  http_attempt (HResp 204 (HCode 250 false)) = HOk /\
-  http_attempt (HResp 400 (HCode 600 false)) = HExc Perm.
+  http_attempt (HResp 503 (HCode 450 true E5)) = HExc Trans /\
+  http_attempt (HResp 500 (HCode 550 true E4)) = HExc Perm /\
+  http_attempt (HResp 204 (HCode 250 false ENone)) = HOk /\
+  http_attempt (HResp 400 (HCode 600 false ENone)) = HExc Perm.
 Proof. vm_compute. repeat split; reflexivity. Qed.
 
 (* ================================================================== *)
@@ -731,7 +731,7 @@ Section Smtp.
 
   Lemma raise_factory_spec {A} k stg s c (Q : A -> st -> Prop) :
     Inv k s -> rel k stg -> lookup_code (filled s) stg = Some c -> is_error c = true ->
-    ok (raise_factory stg) s Q (EA k).
+    ok (raise_factory sc stg) s Q (EA k).
   Proof.
     intros HI Hrel Hc He. unfold ok, raise_factory, code_of, mbind, mget. rewrite Hc. cbn.
     apply EA_relay; [exact HI|]. eapply err_cause; eauto. apply (i_filled _ _ HI), Hc.
@@ -763,7 +763,7 @@ Section Smtp.
   (* `e <- is_error_of stg ;; if e then raise factory(stg) else continue` *)
   Lemma check_stage_spec {A} (a : A) k stg s :
     Inv k s -> rel k stg -> isfilled s stg ->
-    ok (e <- is_error_of stg ;; if e then raise_factory stg else mret a) s
+    ok (e <- is_error_of stg ;; if e then raise_factory sc stg else mret a) s
        (fun _ s' => s' = s /\ nonerr stg) (EA k).
   Proof.
     intros HI Hrel Hfl. eapply ok_bind; [apply (is_error_of_spec k stg s
@@ -1102,14 +1102,14 @@ Section Smtp.
   Lemma rcpt_errors_spec k : forall rs i s (Q : list (option cls) -> st -> Prop),
     filled_ok s -> (forall stg, In stg (rstages k i rs) -> isfilled s stg) ->
     (forall errs, errs_ok k i rs errs -> Q errs s) ->
-    ok (rcpt_errors k i rs) s Q (EA k).
+    ok (rcpt_errors sc k i rs) s Q (EA k).
   Proof.
     induction rs as [|b rs IH]; intros i s Q Hf Hfl HQ; cbn [rcpt_errors rstages] in *.
     - apply ok_ret. apply HQ. exact I.
     - unfold ok, mbind at 1, code_of, mget.
       destruct (lookup_code (filled s) (Rcpt k i)) as [c|] eqn:Ec.
       2:{ exfalso. apply (Hfl (Rcpt k i)); [now left | exact Ec]. }
-      fold (ok (r <- rcpt_errors k (i + 1) rs ;;
+      fold (ok (r <- rcpt_errors sc k (i + 1) rs ;;
                 mret ((if is_error c then Some (factory c) else None) :: r)) s Q (EA k)).
       eapply ok_bind; [apply (IH (i + 1) s (fun errs s' => s' = s /\ errs_ok k (i + 1) rs errs));
                        [exact Hf | intros stg Hs; apply Hfl; now right | auto]|].
@@ -1147,7 +1147,7 @@ Section Smtp.
     Inv k s -> msg_at k = Some msg ->
     isfilled s (Mail k) -> isfilled s (Data k) ->
     (forall stg, In stg (rstages k 0 (m_rcpts msg)) -> isfilled s stg) ->
-    ok (check_replies k (m_rcpts msg)) s
+    ok (check_replies sc k (m_rcpts msg)) s
        (fun _ s' => s' = s /\ nonerr (Mail k) /\ nonerr (Data k)) (EA k).
   Proof.
     intros HI Hm Hfm Hfd Hfr. unfold check_replies.
@@ -1273,15 +1273,15 @@ Section Smtp.
   Proof.
     apply pure_bind; [apply pure_get|]. intros [c|]; [apply pure_ret | apply pure_raise].
   Qed.
-  Lemma pure_raise_factory {A} stg : pure (@raise_factory A stg).
+  Lemma pure_raise_factory {A} stg : pure (@raise_factory sc A stg).
   Proof. apply pure_bind; [apply pure_get|]. intros [c|]; apply pure_raise. Qed.
-  Lemma pure_rcpt_errors k : forall rs i, pure (rcpt_errors k i rs).
+  Lemma pure_rcpt_errors k : forall rs i, pure (rcpt_errors sc k i rs).
   Proof.
     induction rs as [|b rs IH]; intros i; cbn [rcpt_errors]; [apply pure_ret|].
     apply pure_bind; [apply pure_get|]. intros [c|]; [|apply pure_raise].
     apply pure_bind; [apply IH|]. intros r. apply pure_ret.
   Qed.
-  Lemma pure_check_replies k rs : pure (check_replies k rs).
+  Lemma pure_check_replies k rs : pure (check_replies sc k rs).
   Proof.
     unfold check_replies. apply pure_bind; [apply pure_is_error_of|]. intros [|]; [apply pure_raise_factory|].
     apply pure_bind; [apply pure_rcpt_errors|]. intros errs.
@@ -1444,7 +1444,7 @@ Section Smtp.
                        w = Some (if is_error cl then TFailed (factory cl) else TDelivered)) ->
        (forall j a, In j owners -> nth_error addrs (N.to_nat j) = Some a -> exists w, In (a, w) ups) ->
        Q (ups, had) s) ->
-    ok (lmtp_data k addrs owners) s Q (EA k).
+    ok (lmtp_data sc k addrs owners) s Q (EA k).
   Proof.
     induction owners as [|j ow IH]; intros s Q Hf Hown HQ; cbn [lmtp_data].
     - apply ok_ret. apply HQ; [intros a w [] | intros j a []].
@@ -1454,7 +1454,7 @@ Section Smtp.
       destruct (nth_error addrs (N.to_nat j)) as [a0|] eqn:Ea.
       2:{ exfalso. apply nth_error_None in Ea. lia. }
       pose proof (Hf _ _ Ec) as Hrd.
-      fold (ok (r <- lmtp_data k addrs ow ;;
+      fold (ok (r <- lmtp_data sc k addrs ow ;;
                 if is_error c then mret ((a0, Some (TFailed (factory c))) :: fst r, true)
                 else mret ((a0, Some TDelivered) :: fst r, snd r)) s Q (EA k)).
       eapply ok_bind; [apply (IH s (fun r s' => s' = s /\
@@ -1874,7 +1874,7 @@ Qed.
 Definition sc_default (s : stage) : outcome :=
   match s with Idle _ => Stall | Data _ => R3 | _ => R2 end.
 Definition sc_eod3 : script :=
-  mkScript (fun s => match s with Eod _ _ => R3 | _ => sc_default s end) no_exts no_exts.
+  mkScript (fun s => match s with Eod _ _ => R3 | _ => sc_default s end) (fun _ => ENone) no_exts no_exts.
 Definition cfg_plain : config := mkConfig false false false false false ConnOk.
 Definition msg1 : message := mkMsg true [(0, true)] false.
 
@@ -1990,29 +1990,29 @@ Qed.
 
 (* an address that cannot be encoded, a bad reply code: reported, never a foreign exception *)
 Definition sc_badcode : script :=
-  mkScript (fun s => match s with Banner => BadCode | _ => sc_default s end) no_exts no_exts.
+  mkScript (fun s => match s with Banner => BadCode | _ => sc_default s end) (fun _ => ENone) no_exts no_exts.
 Example smtp_example_badcode_address :
   smtp_final sc_badcode cfg_plain [msg1] 0 0 = FTransient /\
-  smtp_final (mkScript sc_default no_exts no_exts) cfg_plain [mkMsg true [(0, true); (1, false)] false] 0 0 = FPermanent /\
-  smtp_final (mkScript sc_default no_exts no_exts) cfg_plain [mkMsg false [(0, true)] false] 0 0 = FPermanent.
+  smtp_final (mkScript sc_default (fun _ => ENone) no_exts no_exts) cfg_plain [mkMsg true [(0, true); (1, false)] false] 0 0 = FPermanent /\
+  smtp_final (mkScript sc_default (fun _ => ENone) no_exts no_exts) cfg_plain [mkMsg false [(0, true)] false] 0 0 = FPermanent.
 Proof. vm_compute. repeat split; reflexivity. Qed.
 
 (* non-vacuity *)
 Definition sc_mixed : script :=
   mkScript (fun s => match s with Rcpt 0 0 => R5 | Rcpt 0 1 => R4 | _ => sc_default s end)
-           (mkExts true false false true) no_exts.
+           (fun _ => ENone) (mkExts true false false true) no_exts.
 Example smtp_example_mixed :
   let msgs := [mkMsg true [(0, true); (1, true)] false] in
   smtp_final sc_mixed cfg_plain msgs 0 0 = FPermanent /\ smtp_final sc_mixed cfg_plain msgs 0 1 = FTransient.
 Proof. cbn zeta. split; vm_compute; reflexivity. Qed.
 Example smtp_example_delivered :
-  smtp_final (mkScript sc_default (mkExts true false false true) no_exts)
+  smtp_final (mkScript sc_default (fun _ => ENone) (mkExts true false false true) no_exts)
              (mkConfig true false false false true ConnOk) [msg1; mkMsg true [(0, true); (1, true)] false] 1 1 = FDelivered /\
-  no_r3_own (mkScript sc_default no_exts no_exts) cfg_plain 0 msg1 0.
+  no_r3_own (mkScript sc_default (fun _ => ENone) no_exts no_exts) cfg_plain 0 msg1 0.
 Proof. split; [vm_compute; reflexivity|]. split; [discriminate|]. intros j _. split; discriminate. Qed.
 (* the same address twice: [alice; alice; nobody] answered 250, 250, 550 - and 250, 550, 250 *)
 Definition sc_rcpt (j : N) (o : outcome) : script :=
-  mkScript (fun s => match s with Rcpt 0 k => if k =? j then o else R2 | _ => sc_default s end) no_exts no_exts.
+  mkScript (fun s => match s with Rcpt 0 k => if k =? j then o else R2 | _ => sc_default s end) (fun _ => ENone) no_exts no_exts.
 Example smtp_example_duplicates :
   let msgs := [mkMsg true [(7, true); (7, true); (9, true)] false] in
   let lmtp := mkConfig true false false false false ConnOk in
@@ -2061,7 +2061,7 @@ Qed.
 
 Example smtp_hangup_example :
   let sc := mkScript (fun s => match s with Ehlo => R500 | Rcpt 0 0 => R5 | Data 0 => Disconnect | _ => sc_default s end)
-                     no_exts no_exts in
+                     (fun _ => ENone) no_exts no_exts in
   let msgs := [mkMsg true [(0, true); (1, true)] false] in
   (exists s, (r_connect cfg_plain ;;; r_handshake sc cfg_plain ;;; run_loop sc cfg_plain msgs 0) st0 = (inr ASmtp, s) /\
              lookup_res (results s) (cur s) = None /\ cur s = 0) /\
@@ -2070,3 +2070,158 @@ Proof.
   cbn zeta. split; [|vm_compute; reflexivity].
   eexists. split; [vm_compute; reflexivity|]. split; vm_compute; reflexivity.
 Qed.
+
+(* ================================================================== *)
+(** * the failure class follows the reply code, whatever the reply text says *)
+Theorem factory_by_code_only c e e' :
+  factory_reply c e = factory_reply c e' /\
+  (factory_reply c e = Perm <-> (c = C5 \/ c = C500)) /\
+  (factory_reply c e = Trans <-> (c = C2 \/ c = C3 \/ c = C4)).
+Proof.
+  split; [reflexivity|]. unfold factory_reply.
+  destruct c; cbn; split; split; intros H; try discriminate; auto;
+    repeat (destruct H as [H|H]; try discriminate); try discriminate.
+Qed.
+(* at the level of results: a failure entry has the class of the CODE of an error reply to an own
+   occurrence; the enhanced status code in its text (rtext) plays no part *)
+Theorem smtp_failed_class_by_code sc cfg msgs m l i c :
+  lookup_res (results (run_client sc cfg msgs)) m = Some (MMap l) -> nth_error l i = Some (TFailed c) ->
+  exists msg j stg cl, msg_at msgs m = Some msg /\ own msg i j /\
+    (stg = Rcpt m (N.of_nat j) \/ stg = Eod m (N.of_nat j)) /\
+    read_reply (reply sc stg) = inl cl /\ is_error cl = true /\
+    (c = Perm <-> (cl = C5 \/ cl = C500)).
+Proof.
+  intros Hl Hn. destruct (smtp_failed_own_class sc cfg msgs m l i c Hl Hn) as (msg & j & Hm & Hj & stg & cl & Hs & Hr & He & Hf).
+  exists msg, j, stg, cl. repeat split; auto; subst c; destruct cl; cbn; intros H; try discriminate; auto;
+    repeat (destruct H as [H|H]; try discriminate).
+Qed.
+Example esc_example :
+  let sc := mkScript (fun s => match s with Rcpt 0 0 => R5 | Rcpt 0 1 => R4 | _ => sc_default s end)
+                     (fun s => match s with Rcpt 0 0 => E4 | Rcpt 0 1 => E5 | _ => ENone end) no_exts no_exts in
+  let msgs := [mkMsg true [(0, true); (1, true)] false] in
+  smtp_final sc cfg_plain msgs 0 0 = FPermanent /\ smtp_final sc cfg_plain msgs 0 1 = FTransient /\
+  http_attempt (HResp 500 (HCode 550 false E4)) = HExc Perm.
+Proof. cbn zeta. repeat split; vm_compute; reflexivity. Qed.
+
+(* ================================================================== *)
+(** * MxSmtpRelay as an object: what the MxRecord cache may hold *)
+Lemma mx_insert_length p h l : length (mx_insert p h l) = S (length l).
+Proof.
+  induction l as [|[q g] l IH]; cbn; [reflexivity|]. destruct (p <? q); cbn; [reflexivity | now rewrite IH].
+Qed.
+Lemma mx_sort_length l : length (mx_sort l) = length l.
+Proof.
+  unfold mx_sort.
+  assert (G : forall ans acc, length (fold_left (fun a r => mx_insert (fst r) (snd r) a) ans acc)
+                              = (length ans + length acc)%nat).
+  { induction ans as [|[p h] ans IH]; intros acc; cbn [fold_left]; [reflexivity|].
+    rewrite IH, mx_insert_length. cbn. lia. }
+  rewrite G. cbn. lia.
+Qed.
+Lemma choose_mx_some x recs a : choose_mx (x :: recs) a <> None.
+Proof.
+  unfold choose_mx. intros H. apply nth_error_None in H.
+  assert (a mod N.of_nat (length (x :: recs)) < N.of_nat (length (x :: recs))) by (apply N.mod_lt; cbn; lia).
+  lia.
+Qed.
+
+(* a record that counts as fresh always holds usable records: only successful, non-empty lookups
+   are ever given an expiration *)
+Definition mx_cache_ok (cache : list (N * mxrec)) : Prop :=
+  forall d r, dget cache d = Some r -> mr_exp r <> 0 -> exists x recs, mr_records r = Some (x :: recs).
+
+Lemma mx_resolve_ok st recs e :
+  mx_resolve st = inl (recs, e) -> e <> 0 -> exists x l, recs = Some (x :: l).
+Proof.
+  unfold mx_resolve. destruct (s_mx st) as [l| |]; [| |discriminate].
+  - intros [= <- <-] He. destruct l as [|p l]; [contradiction|].
+    destruct (map (fun r => DHost (snd r)) (mx_sort (p :: l))) as [|x l'] eqn:E; [|eauto].
+    apply (f_equal (@length _)) in E. rewrite map_length, mx_sort_length in E. discriminate.
+  - destruct (s_a st) as [l| |]; [| |discriminate].
+    + intros [= <- <-] He. destruct l as [|u l]; [contradiction|]. cbn. eauto.
+    + intros [= <- <-] He. contradiction.
+Qed.
+
+Lemma mx_step_keeps cache st :
+  mx_cache_ok cache -> mx_cache_ok (snd (mx_attempt_st cache st)).
+Proof.
+  intros Hok. unfold mx_attempt_st. destruct (s_domain st) as [d|]; [|exact Hok].
+  set (r := match dget cache d with Some r => r | None => mxrec0 end).
+  assert (Hr : mr_exp r <> 0 -> exists x recs, mr_records r = Some (x :: recs)).
+  { unfold r. destruct (dget cache d) as [r0|] eqn:E; [now apply (Hok d) | cbn; congruence]. }
+  assert (Hset : forall r', (mr_exp r' <> 0 -> exists x recs, mr_records r' = Some (x :: recs)) ->
+                 mx_cache_ok (dset cache d r')).
+  { intros r' Hr' d0 r0. rewrite dget_dset. destruct (d =? d0); [intros [= <-]; exact Hr' | apply Hok]. }
+  destruct (mx_expired r (s_now st)).
+  - destruct (mx_resolve st) as [[recs e]|[]] eqn:E; cbn [snd]; apply Hset; [|exact Hr].
+    cbn. intros He. eapply mx_resolve_ok; eauto.
+  - cbn [snd]. now apply Hset.
+Qed.
+Lemma mx_cache_after_ok steps : mx_cache_ok (mx_cache_after steps).
+Proof.
+  unfold mx_cache_after.
+  assert (G : forall steps c, mx_cache_ok c -> mx_cache_ok (fold_left (fun c st => snd (mx_attempt_st c st)) steps c)).
+  { induction steps0 as [|st steps0 IH]; intros c Hc; cbn [fold_left]; [exact Hc|]. apply IH. now apply mx_step_keeps. }
+  apply G. intros d r. discriminate.
+Qed.
+
+(* after any history of attempts on one MxSmtpRelay: the classification of an attempt for domain d is
+   the one its OWN resolver answers call for, except for the documented caching of successful lookups *)
+Theorem mx_error_not_cached steps st d :
+  s_domain st = Some d ->
+  let cache := mx_cache_after steps in
+  let r := match dget cache d with Some r => r | None => mxrec0 end in
+  let '(o, asked, cache') := mx_attempt_st cache st in
+  (* the resolver is asked exactly when no fresh record is cached *)
+  asked = mx_expired r (s_now st) /\
+  (* a resolver error: transient, the record is left as it was, so the next attempt asks again *)
+  (asked = true -> mx_resolve st = inr tt ->
+     o = MxTrans /\ dget cache' d = Some r /\ forall now', s_now st <= now' -> mx_expired r now' = true) /\
+  (* transient only on a resolver error of this very attempt *)
+  (o = MxTrans -> asked = true /\ mx_resolve st = inr tt) /\
+  (* permanent only if the resolver, asked in this very attempt, answered that there is nothing *)
+  (o = MxPerm -> asked = true /\ exists e, mx_resolve st = inl (None, e) \/ mx_resolve st = inl (Some [], e)) /\
+  (* a fresh cached record: used as it is *)
+  (asked = false -> o = mx_finish r (s_attempts st) /\ exists dst, o = MxRelay dst).
+Proof.
+  intros Hd. cbn zeta. pose proof (mx_cache_after_ok steps) as Hok.
+  set (cache := mx_cache_after steps) in *.
+  unfold mx_attempt_st. rewrite Hd.
+  set (r := match dget cache d with Some r => r | None => mxrec0 end).
+  assert (Hr : mr_exp r <> 0 -> exists x recs, mr_records r = Some (x :: recs)).
+  { unfold r. destruct (dget cache d) as [r0|] eqn:E; [now apply (Hok d) | cbn; congruence]. }
+  destruct (mx_expired r (s_now st)) eqn:Eexp.
+  - destruct (mx_resolve st) as [[recs e]|[]] eqn:Eres.
+    + split; [reflexivity|]. split; [intros _ H; discriminate|]. split.
+      * unfold mx_finish. cbn. destruct recs as [[|x l]|]; try discriminate.
+        destruct (choose_mx (x :: l) (s_attempts st)); discriminate.
+      * split; [|intros H; discriminate].
+        unfold mx_finish. cbn. intros H. split; [reflexivity|]. exists e.
+        destruct recs as [[|x l]|]; auto.
+        destruct (choose_mx (x :: l) (s_attempts st)) eqn:Ec; [discriminate|].
+        exfalso. now apply (choose_mx_some x l (s_attempts st)).
+    + split; [reflexivity|]. split.
+      * intros _ _. split; [reflexivity|]. split; [rewrite dget_dset, N.eqb_refl; reflexivity|].
+        intros now' Hle. unfold mx_expired in *. apply orb_true_iff in Eexp. apply orb_true_iff.
+        destruct Eexp as [E|E]; [left; exact E | right; lia].
+      * split; [intros _; split; reflexivity|]. split; intros H; discriminate.
+  - assert (He : mr_exp r <> 0).
+    { unfold mx_expired in Eexp. apply orb_false_iff in Eexp. destruct Eexp as [E _]. lia. }
+    destruct (Hr He) as (x & recs & Hrec).
+    assert (Hfin : exists dst, mx_finish r (s_attempts st) = MxRelay dst).
+    { unfold mx_finish. rewrite Hrec. destruct (choose_mx (x :: recs) (s_attempts st)) as [dst|] eqn:Ec; [eauto|].
+      exfalso. now apply (choose_mx_some x recs (s_attempts st)). }
+    destruct Hfin as [dst Hdst].
+    split; [reflexivity|]. split; [intros H; discriminate|].
+    split; [rewrite Hdst; intros H; discriminate|]. split; [rewrite Hdst; intros H; discriminate|].
+    intros _. split; [reflexivity | eauto].
+Qed.
+
+Example mx_seq_example :
+  let fail := mkMxStep (Some 1) 100 DnsFail DnsFail 60 0 in
+  let good := mkMxStep (Some 1) 105 (DnsOk [(10, 7)]) (DnsOk [tt]) 60 1 in
+  let later := mkMxStep (Some 1) 120 DnsFail DnsFail 60 2 in
+  let expired := mkMxStep (Some 1) 200 DnsFail DnsFail 60 3 in
+  mx_run [] [fail; fail; good; later; expired] =
+  [(MxTrans, true); (MxTrans, true); (MxRelay (DHost 7), true); (MxRelay (DHost 7), false); (MxTrans, true)].
+Proof. vm_compute. reflexivity. Qed.
